@@ -53,12 +53,19 @@ func userCallback() {
 }
 
 func exampleOf(b *Built, seed int) (val string, crashed bool) {
+	v, _, c := exampleRaw(b, seed)
+	return v, c
+}
+
+// exampleRaw also returns the value itself, so that it can be looked at again later: a drawn value belongs to the check that drew it
+func exampleRaw(b *Built, seed int) (val string, raw any, crashed bool) {
 	defer func() {
 		if p := recover(); p != nil {
-			val, crashed = fmt.Sprintf("panic: %v", p), true
+			val, raw, crashed = fmt.Sprintf("panic: %v", p), nil, true
 		}
 	}()
-	return deepVal(b.G.Example(seed)), false
+	raw = b.G.Example(seed)
+	return deepVal(raw), raw, false
 }
 
 func sharedMode(t *testing.T, rec *Recorder) {
@@ -99,6 +106,7 @@ func sharedMode(t *testing.T, rec *Recorder) {
 				shared := (&GenEnv{cache: map[*GenSpec]*Built{}, run: r}).Build(spec)
 				results := make([][]string, sc.K)
 				crashes := make([][]bool, sc.K)
+				raws := make([][]any, sc.K)
 				if sc.Pairing == "interleave" {
 					pause.count.Store(0)
 					pause.target = int64(sc.PauseAt)
@@ -162,9 +170,10 @@ func sharedMode(t *testing.T, rec *Recorder) {
 									_ = d.Example(seedOf(k, i))
 								}()
 							}
-							v, c := exampleOf(mine, seedOf(k, i))
+							v, raw, c := exampleRaw(mine, seedOf(k, i))
 							results[k] = append(results[k], v)
 							crashes[k] = append(crashes[k], c)
+							raws[k] = append(raws[k], raw)
 						}
 					}()
 				}
@@ -172,7 +181,9 @@ func sharedMode(t *testing.T, rec *Recorder) {
 				wg.Wait()
 				for k := 0; k < sc.K; k++ {
 					for i := range results[k] {
-						rec.Emit("shared", F{"key": fmt.Sprintf("r%d/k%d/i%d", round, k, i), "draws": results[k][i], "crashed": crashes[k][i]})
+						// the values drawn earlier are looked at once more after everything else has been drawn: they must not have changed
+						stable := crashes[k][i] || deepVal(raws[k][i]) == results[k][i]
+						rec.Emit("shared", F{"key": fmt.Sprintf("r%d/k%d/i%d", round, k, i), "draws": results[k][i], "crashed": crashes[k][i], "stable": stable})
 					}
 				}
 			}()
